@@ -35,6 +35,7 @@ PROP_MODULES = {
     "C03": ["contracts.c03"],
     "C18": ["contracts.c18"],
     "C13": ["contracts.c13"],
+    "C02": ["contracts.c02"],
 }
 
 
